@@ -195,7 +195,7 @@ func init() {
 		nv := x.freshValue("json", pt.Elem())
 		s.assumeRanges(nv)
 		s.store(p, nv)
-		return x.freshResult(s, c.Signature().Results()), true
+		return x.freshResult(s, c.Signature().Results().At(0).Type()), true
 	}
 	modelModKeys["encoding/json.Unmarshal"] = func(x *Exec, s *State) []string { return []string{"*"} }
 	models["bytes.Compare"] = func(x *Exec, s *State, in ssa.Instruction, a []Value, c *ssa.CallCommon) (Value, bool) {
@@ -204,7 +204,7 @@ func init() {
 	}
 	models["reflect.DeepEqual"] = func(x *Exec, s *State, in ssa.Instruction, a []Value, c *ssa.CallCommon) (Value, bool) {
 		x.declareFun("deep_equal", []string{sInt, sInt, sInt, sInt}, sBool)
-		t := app("deep_equal", a[0].F[0].S, a[0].F[1].S, a[1].F[0].S, a[1].F[1].S)
+		t := deepEqualTerm(a[0], a[1])
 		s.assume(imp(valuesEqual(a[0], a[1]), t))
 		return bv(t), true
 	}
@@ -420,4 +420,11 @@ func mergeTwo(c string, a, b Value) Value {
 		out[i] = ite(c, fa[i], fb[i])
 	}
 	return build(a.T, &out)
+}
+
+// deepEqualTerm: the uninterpreted deep-equality predicate on two interface
+// values; the box word of a nil interface is normalised (it carries nothing).
+func deepEqualTerm(a, b Value) string {
+	nb := func(v Value) string { return ite(eq(v.F[0].S, "0"), "0", v.F[1].S) }
+	return app("deep_equal", a.F[0].S, nb(a), b.F[0].S, nb(b))
 }
